@@ -20,7 +20,7 @@ ID = "C03"
 LEVEL = "exploration"
 RULE = ("generated conversation scripts of 2-14 operations over 2-4 accounts (each registered from a template profile or started "
         "from nothing, so that the first passive login uploads its keys): send(from, to | group, payload) with payload in {text, "
-        "link preview, image, location, contact} and a unique >= 12-byte marker in every textual or binary field; deliver(k) of "
+        "link preview, image, video, audio, document, sticker, location, contact} and a unique >= 12-byte marker in every textual or binary field; deliver(k) of "
         "the k-th queued server stanza in any order; duplicate(k) of a queued message stanza; corrupt(k): one flipped ciphertext "
         "byte, once per message and recipient; restart(account) while none of its stanzas is queued; loop(account); all queues "
         "are drained at the end. Non-trivial = a group message, a duplicate / corruption, a restart or an out-of-order delivery. "
@@ -38,7 +38,8 @@ ASSUMPTIONS = [
 
 JIDS = ["4915100000021@s.whatsapp.net", "4915100000022@s.whatsapp.net", "4915100000023@s.whatsapp.net", "4915100000024@s.whatsapp.net"]
 GROUPS = ["4915100000021-1500000001@g.us", "4915100000022-1500000002@g.us"]
-MEDIATYPE = {"image": "image", "location": "location", "contact": "contact"}
+MEDIATYPE = {"image": "image", "location": "location", "contact": "contact", "video": "video", "audio": "audio",
+             "document": "document", "sticker": "sticker"}
 
 
 def marker(msg_no, field):
@@ -75,6 +76,31 @@ def payload_spec(kind, msg_no, opts):
         return {"location": d}
     if kind == "contact":
         return {"contact": {"display_name": mk("name"), "vcard": ("BEGIN:VCARD\nFN:%s\nEND:VCARD" % mk("vcard")).encode().hex()}}
+    if kind in ("video", "audio", "document", "sticker"):
+        mime = {"video": "video/mp4", "audio": "audio/ogg", "document": "application/pdf", "sticker": "image/webp"}[kind]
+        dm = {"mimetype": mime, "file_length": 2000 + msg_no, "file_sha256": hashlib.sha256(mk("sha").encode()).hexdigest(),
+              "url": "https://mmg.whatsapp.net/d/" + mk("url"), "media_key": hashlib.sha256(mk("key").encode()).hexdigest()}
+        if kind == "video":
+            d = {"width": 320, "height": 240 + msg_no, "seconds": 7, "dm": dm}
+            if opts.get("a"):
+                d.update(caption=mk("caption"), gif_playback=True)
+            if opts.get("b"):
+                d["jpeg_thumbnail"] = mk("thumb").encode().hex()
+        elif kind == "audio":
+            d = {"seconds": 3 + msg_no, "dm": dm}
+            if opts.get("a"):
+                d["ptt"] = True
+        elif kind == "document":
+            d = {"file_name": mk("fname") + ".pdf", "file_length": dm["file_length"], "dm": dm}
+            if opts.get("a"):
+                d.update(title=mk("title"), page_count=3)
+            if opts.get("b"):
+                d["jpeg_thumbnail"] = mk("thumb").encode().hex()
+        else:
+            d = {"width": 64, "height": 64 + msg_no, "dm": dm}
+            if opts.get("b"):
+                d["png_thumbnail"] = mk("thumb").encode().hex()
+        return {kind: d}
     raise ValueError(kind)
 
 
@@ -506,7 +532,7 @@ def script_strategy(tier):
     sel = st.integers(0, 9)
     opts = st.fixed_dictionaries({"a": st.booleans(), "b": st.booleans(), "pad": st.sampled_from([0, 0, 3, 200])})
     send = st.tuples(st.just("send"), sel, st.one_of(sel, sel, st.sampled_from(["g0", "g1"])),
-                     st.sampled_from(["text", "text", "link", "image", "location", "contact"]), opts).map(list)
+                     st.sampled_from(["text", "text", "text", "link", "image", "location", "contact", "video", "audio", "document", "sticker"]), opts).map(list)
     op = st.one_of(send, send, send,
                    st.tuples(st.just("deliver"), sel).map(list), st.tuples(st.just("deliver"), st.just(0)).map(list),
                    st.tuples(st.just("dup"), sel).map(list), st.tuples(st.just("corrupt"), sel, sel).map(list),
@@ -529,6 +555,9 @@ def _enum_basic():
     yield {"sub": "conversation", "accounts": 2, "registered": [True, True], "groups": [[0, 1], [0, 1]],
            "ops": [["send", 0, 0, "text", o], ["send", 1, 0, "text", o], ["send", 0, 0, "image", o], ["send", 0, 0, "location", o],
                    ["send", 1, 0, "contact", o], ["send", 1, 0, "link", o]]}
+    yield {"sub": "conversation", "accounts": 3, "registered": [True, True, True], "groups": [[0, 1, 2], [0, 1, 2]],
+           "ops": [["send", 0, 1, "video", o], ["send", 1, 0, "audio", o], ["send", 0, 1, "document", o], ["send", 1, 0, "sticker", o],
+                   ["send", 2, "g0", "video", o], ["send", 2, "g0", "audio", o], ["send", 1, "g1", "document", o], ["send", 0, "g1", "sticker", o]]}
     yield {"sub": "conversation", "accounts": 3, "registered": [True, False, True], "groups": [[0, 1, 2], [1, 2]],
            "ops": [["send", 0, "g0", "text", o], ["send", 1, "g0", "text", o], ["send", 2, "g1", "location", o], ["send", 0, "g0", "text", o]]}
     yield {"sub": "conversation", "accounts": 2, "registered": [True, True], "groups": [[0, 1], [0, 1]],
